@@ -88,6 +88,13 @@ CHECKS.update({
     technique="Coq proof (invariant over steps and pruning rounds) + correspondence",
     ref="DESIGN.md section 7 C14"),
 })
+CHECKS.update({
+ "C15": dict(
+    text="PARTIAL proof (Coq, exact reals): the recurrences of the incremental Calinski-Harabasz index (add and remove: cluster mean, within-cluster sum of squares, correction term staying 0, global mean) are proved on the sufficient statistics of a coordinate, s2 - s1^2/n is proved to be the within-cluster sum of squares, and the gate (a sample joins an existing cluster only if the reset function - strict improvement of the index - returned true for it) is the generic winner-not-vetoed theorem. The lifting to the dictionary-valued state over arbitrary add/switch sequences is not proved: instead the executable model is compared, after every operation of every generated sequence and after iCVIFuzzyART fits (offline/online), (a) with the implementation and (b) with the batch index of the current labelled data using exact rational equality. The tracked value vs an independent batch computation and the gate (iCVIFuzzyART and CVIART with all three sklearn indices) are re-derived on the implementation.",
+    note="Trusted: Coq kernel + stdlib real axioms; exact-real semantics (binary64 rounding residue of WGSS: known finding); sklearn indices as given; fits with a validity comparison closer than 1e-9 are not judged against the model.",
+    technique="Coq proof (field identities, generic gate theorem) + correspondence incl. model-vs-batch exact check",
+    ref="DESIGN.md section 7 C15"),
+})
 NOT_YET = {}
 def main():
     props = [json.loads(l) for l in open(os.path.join(V, "properties.jsonl"))]
